@@ -16,6 +16,19 @@ type TypeInfo struct {
 	PkgPath string
 }
 
+// IsPackageLevelType reports whether the named type is declared at package level.
+// Annotations belong to package-level declarations only: a type declared inside a function
+// body may share the name (and package) of an annotated type without being that type.
+func IsPackageLevelType(named *types.Named) bool {
+	obj := named.Obj()
+	if obj == nil || obj.Pkg() == nil {
+		return false
+	}
+	// Objects that were never entered into a scope (imported lazily, or built by hand) have no parent
+	parent := obj.Parent()
+	return parent == nil || parent == obj.Pkg().Scope()
+}
+
 // ExtractTypeInfo extracts type name and package path from a types.Type
 // Returns nil if the type is not a named type or has no package
 func ExtractTypeInfo(t types.Type) *TypeInfo {
@@ -37,7 +50,7 @@ func ExtractTypeInfo(t types.Type) *TypeInfo {
 
 	typeName := named.Obj().Name()
 	pkg := named.Obj().Pkg()
-	if pkg == nil {
+	if pkg == nil || !IsPackageLevelType(named) {
 		return nil
 	}
 
